@@ -1127,7 +1127,8 @@ caption_command(vbi_decoder *vbi, struct caption *cc,
 
 			render(ch->pg + (ch->hidden ^ 1), -1 /* ! */);
 
-			erase_memory(cc, ch, ch->hidden); // yes?
+			/* 47 CFR 15.119 (f): The displayed caption becomes
+			   non-displayed "without being erased from memory". */
 
 			/*
 			 *  A Preamble Address Code should follow,
